@@ -214,10 +214,10 @@ WEI = st.fixed_dictionaries({"n": st.integers(1, 40), "key": st.integers(0, 999)
                              "epoch": st.integers(0, 50)})
 
 FACETS = [
-    Facet("class-balanced", check_balanced, strategy=lambda tier: BAL, budget={"quick": 1500, "thorough": 20000},
-          shards={"quick": 3, "thorough": 8}, min_nontrivial={"quick": 300, "thorough": 3000}),
-    Facet("semi", check_semi, strategy=lambda tier: SEMI, budget={"quick": 1500, "thorough": 20000},
-          shards={"quick": 3, "thorough": 8}, min_nontrivial={"quick": 300, "thorough": 3000}),
-    Facet("weighted", check_weighted, strategy=lambda tier: WEI, budget={"quick": 1000, "thorough": 20000},
-          shards={"quick": 2, "thorough": 8}, min_nontrivial={"quick": 200, "thorough": 3000}),
+    Facet("class-balanced", check_balanced, strategy=lambda tier: BAL, budget={"quick": 3000, "thorough": 20000},
+          shards={"quick": 4, "thorough": 8}, min_nontrivial={"quick": 300, "thorough": 3000}),
+    Facet("semi", check_semi, strategy=lambda tier: SEMI, budget={"quick": 3000, "thorough": 20000},
+          shards={"quick": 4, "thorough": 8}, min_nontrivial={"quick": 300, "thorough": 3000}),
+    Facet("weighted", check_weighted, strategy=lambda tier: WEI, budget={"quick": 2000, "thorough": 20000},
+          shards={"quick": 3, "thorough": 8}, min_nontrivial={"quick": 200, "thorough": 3000}),
 ]
